@@ -8,10 +8,11 @@ import (
 
 func init() {
 	register(&CheckDef{
-		ID:        "C11",
-		Level:     "model_checking",
-		Technique: "bounded symbolic execution of the real parser actions and getIndexes kernels (go/ssa -> SMT bit-vectors, z3): start/end/step are 64-bit symbolic numeral holes, array length enumerated",
-		Jobs:      c11Jobs,
+		ID:         "C11",
+		SolverDiff: true,
+		Level:      "model_checking",
+		Technique:  "bounded symbolic execution of the real parser actions and getIndexes kernels (go/ssa -> SMT bit-vectors, z3): start/end/step are 64-bit symbolic numeral holes, array length enumerated",
+		Jobs:       c11Jobs,
 		Bounds: func(tier string) map[string]interface{} {
 			return map[string]interface{}{"start,end,step": "all int64 (symbolic BV64)", "array length": fmt.Sprintf("0..%d", c11MaxLen(tier)),
 				"forms": "all 8 omitted-combinations of [s:e:t], the 4 of [s:e], [n], union [n,s:e:t]", "fuel": "5e6 SSA steps per path (unwinding assertion)"}
